@@ -154,16 +154,11 @@ def check_hamiltonian(ctx, seq, case=None, tour_rng=None) -> bool:
                     d["det"][c["end"]:] += c["eom_off"]
         else:
             gray_from = min(gray_from, c["end"])
-    # several drives of one basis on one atom: the statement defines no combined phase -> off-diagonals gray
-    multi = False
+    # (several drives of one basis on one atom at the same time: decided per time step below)
+    several = False
     for b in used:
-        glob = [c for c in chans if c["basis"] == b and c["addr"] == "Global" and not c["dmm"] and c["slots"]]
-        if len(glob) > 1:
-            multi = True
-        for q in qids:
-            loc = [c for c in chans if c["basis"] == b and c["addr"] == "Local" and any(q in s["targets"] for s in c["slots"])]
-            if len(loc) > 1:
-                multi = True
+        if len([c for c in chans if c["basis"] == b and not c["dmm"] and c["slots"]]) > 1:
+            several = True
     dev = seq.device
     c6 = refham.c6(dev.rydberg_level)
     c3 = dev.interaction_coeff_xy if in_xy else None
@@ -186,6 +181,7 @@ def check_hamiltonian(ctx, seq, case=None, tour_rng=None) -> bool:
                 # complex half-Rabi coupling: sum over the covering pulse slots of Omega/2 * exp(-i phi)
                 drives[(i, b)] = (0.0 + 0j, float(a["det"][t]))
         # couplings need the per-slot phases: recompute from the slots covering t
+        ndrv: dict = {}
         for c in chans:
             for s in c["slots"]:
                 if not (s["ti"] <= t < s["tf"]) or not np.any(s["amp"]):
@@ -198,6 +194,9 @@ def check_hamiltonian(ctx, seq, case=None, tour_rng=None) -> bool:
                     i = qids.index(q)
                     cc, dd = drives.get((i, c["basis"]), (0j, 0.0))
                     drives[(i, c["basis"])] = (cc + 0.5 * s["amp"][t - s["ti"]] * np.exp(-1j * s["phase"]), dd)
+                    ndrv[(i, c["basis"])] = ndrv.get((i, c["basis"]), 0) + 1
+        # several driving pulses of one basis on one atom *at this time*: the statement defines no combined phase
+        multi = any(v > 1 for v in ndrv.values())
         decoupled = {qids.index(q) for q in slm[0] if q in qids} if (slm and t < slm[1]) else None
         Href = refham.hamiltonian(states, coords, drives, c6_coeff=None if in_xy else c6, c3_coeff=c3, field=field,
                                   decoupled=decoupled)
@@ -214,6 +213,8 @@ def check_hamiltonian(ctx, seq, case=None, tour_rng=None) -> bool:
         if herm > 1e-10 * (1 + np.max(np.abs(H))):
             ctx.violation("hermitian", f"H({t}) is not Hermitian: max|H-H^dag| = {herm:.3g}",
                           "nearly-real-coupling-merged-with-its-conjugate" if 0 < herm <= 2.5 * tiny_im else "not-hermitian", case=case)
+        if several and not multi:
+            ctx.count("hamiltonians_compared_with_several_channels_on_a_basis_taking_turns")
         if multi:
             ctx.gray("several-drives-one-basis:off-diagonal")
             diff = np.max(np.abs(np.diag(H) - np.diag(Href)))
